@@ -297,6 +297,17 @@ example : (Linux.parseConfig (lit "*filter\n:INPUT DROP\n-A INPUT ! -s 10.1.1.1 
 example : Linux.parseConfig (lit "*filter\n:INPUT DROP\n-A INPUT !\n") =
     .diag (lit "Unexpected trailing '!' in line\n -A INPUT !") := by rfl
 
+/-- `MergeSpoc` of package linux: the search for the insert position of `[APPEND]` rules never indexes
+below 0, for ANY chain (empty, only DROP rules, …), and yields an index inside the chain. -/
+theorem no_panic_linux_mergeSpoc (revDrop : List Bool) :
+    NoPanic (Linux.appendIndex true revDrop) ∧ ∀ i, Linux.appendIndex true revDrop = .ok i → i ≤ revDrop.length :=
+  ⟨Linux.appendIndex_noPanic revDrop, Linux.appendIndex_le revDrop⟩
+
+/-- without the `i > 0` bound of the loop: an empty chain, or a chain of DROP rules only. -/
+theorem linux_mergeSpoc_unbounded_counterexample :
+    Linux.appendIndex false [] = .panic (.index "aChain.rules[i-1]") ∧
+    Linux.appendIndex false [true, true] = .panic (.index "aChain.rules[i-1]") := ⟨rfl, rfl⟩
+
 /-! ## NSX -/
 
 /-- The checks of `ParseConfig` after the fix never panic, whatever `json.Unmarshal` produced. -/
@@ -352,6 +363,38 @@ theorem panos_mergeSpoc_counterexample :
 theorem panos_getDevName_counterexample :
     PanOs.getDevName false none = .panic (.nilDeref "c.Devices.Entries") := by rfl
 
+/-- `getObjListType` and `markAddresses` (panos/diff.go) recurse through nested address-groups; on
+a group graph without cycle (rank function, established by `checkGroupCycle` for BOTH
+configurations before `diffConfig` goes on) a stack of depth rank + 2 suffices … -/
+theorem no_overflow_panos_getObjListType (groups : Str → Option (List Str)) (isAddr : Str → Bool)
+    (rk : Str → Nat) (hrk : PanOs.Ranked groups rk) (fuel : Nat) (l : List Str)
+    (h : ∀ e ∈ l, rk e + 1 < fuel) (h0 : 0 < fuel) : NoPanic (PanOs.objListType groups isAddr fuel l) :=
+  PanOs.objListType_noPanic groups isAddr rk hrk fuel l h h0
+
+theorem no_overflow_panos_markAddresses (groups : Str → Option (List Str)) (rk : Str → Nat)
+    (hrk : PanOs.Ranked groups rk) (fuel : Nat) (l : List Str)
+    (h : ∀ e ∈ l, rk e + 1 < fuel) (h0 : 0 < fuel) : NoPanic (PanOs.markAddresses groups fuel l) :=
+  PanOs.markAddresses_noPanic groups rk hrk fuel l h h0
+
+/-- … and with a cycle no stack is deep enough (Go: `fatal error: stack overflow`): the 1-cycle
+g0 = [g0] and the 2-cycle g0 = [g1], g1 = [g0], reached from a rule whose only source is g0.
+F-C20r; the device side is reached through `rulesPair.Equal → objectsTypeEq`. -/
+theorem panos_groupCycle_counterexample (isAddr : Str → Bool) (fuel : Nat) :
+    PanOs.objListType (fun n => if n = lit "g0" then some [lit "g0"] else none) isAddr fuel [lit "g0"] =
+      .panic (.explicit "fatal error: stack overflow") := PanOs.objListType_cycle isAddr fuel
+
+theorem panos_groupCycle2_counterexample (isAddr : Str → Bool) (fuel : Nat) :
+    PanOs.objListType (fun n => if n = lit "g0" then some [lit "g1"] else if n = lit "g1" then some [lit "g0"] else none)
+      isAddr fuel [lit "g0"] = .panic (.explicit "fatal error: stack overflow") :=
+  (PanOs.objListType_cycle2 isAddr fuel).1
+
+example : PanOs.Ranked (fun n => if n = lit "g0" then some [lit "a1"] else none)
+    (fun n => if n = lit "g0" then 1 else 0) := by
+  intro n ms h m hm
+  by_cases hn : n = lit "g0"
+  · simp [hn] at h; subst h; simp at hm; subst hm; simp [hn]; decide
+  · simp [hn] at h
+
 /-! ## info and status files, type assertions -/
 
 /-- Snapshot: an info file with content `null` sets the pointer to nil. F-C20j. -/
@@ -398,7 +441,9 @@ def obligations : List Lean.Name := [
   ``no_panic_stripMetric, ``no_panic_setTransRef, ``transRefs_blank_counterexample,
   ``no_panic_dstOfRoute, ``dstOfRoute_short_counterexample, ``dstOfRoute_vrf_counterexample,
   ``dstOfRoute_v6_counterexample, ``no_panic_routeVRF, ``routeVRF_counterexample, ``parsed_index_ok,
-  ``no_panic_linux_parseConfig,
+  ``no_panic_linux_parseConfig, ``no_panic_linux_mergeSpoc, ``linux_mergeSpoc_unbounded_counterexample,
+  ``no_overflow_panos_getObjListType, ``no_overflow_panos_markAddresses, ``panos_groupCycle_counterexample,
+  ``panos_groupCycle2_counterexample,
   ``no_panic_nsx_parseConfig, ``nsx_accessors_safe, ``no_panic_nsx_equalizeGroups, ``nsx_null_counterexample,
   ``nsx_emptyAddresses_counterexample, ``nsx_equalizeGroups_counterexample,
   ``no_panic_panos_checkRaw, ``no_panic_panos_mergeSpoc, ``no_panic_panos_getDevName, ``no_panic_panos_devNameFor,
